@@ -129,7 +129,7 @@ func genLogBatch(r *vgen.Rand, tiny bool) logBatch {
 	resources, b.twin = genResources(r, r.Chance(1, 6))
 	scopes := genScopes(r)
 	b.nres, b.nscopes = len(resources), len(scopes)
-	allowDropped := r.Chance(1, 6)
+	allowDropped := r.Chance(1, 3)
 	allowEmpty := r.Chance(1, 5)
 	n := r.Range(1, 10)
 	if tiny {
@@ -161,7 +161,7 @@ func genLogBatch(r *vgen.Rand, tiny bool) logBatch {
 			f.TraceID = genTraceID(r) // trace id without span id
 		}
 		if allowDropped && r.Bool() {
-			f.Dropped = vgen.Pick(r, []int{1, 2, 7, 1 << 31, 1<<32 - 1})
+			f.Dropped = vgen.Pick(r, []int{1, 2, 7, 1 << 31, 1<<32 - 1, 1<<32 - 1, 1 << 32, -1}) // the last two: outside the guard (clamped)
 			b.dropped = true
 		}
 		f.Resource = vgen.Pick(r, resources)
@@ -366,7 +366,7 @@ func logCorpus() []logBatch {
 			Attributes: []log.KeyValue{log.Int("n", n)}}
 	}
 	var out []logBatch
-	// F-C13-2: DroppedAttributes = 2
+	// F-C13-2 (fixed in /repo by c7bf84f; kept as regression input): DroppedAttributes = 2
 	f := mk(1, res1, scA)
 	f.Dropped = 2
 	out = append(out, logBatch{recs: []sdklog.Record{f.newRecord()}, dropped: true, nres: 1, nscopes: 1})
